@@ -584,6 +584,21 @@ func (h *hist) classifyDiff(a, b vh.Snap, alt *vh.RepoModel) (known, unknown []s
 			unknown = append(unknown, fmt.Sprintf("manifest %s %s->%s", mm.Name, a.Man[d], b.Man[d]))
 		}
 	}
+	for d, ca := range a.CT {
+		cb, both := b.CT[d]
+		mm := w.U.ByD[d]
+		if !both || ca == cb || mm == nil {
+			continue
+		}
+		// the media type a manifest is served with changed.  Recorded finding K9 explains it only where acknowledged
+		// indexes list the manifest under at least two different types (which listing wins depends on the order of
+		// the entries, which a reload may change)
+		if n, skew := m.ListingTypes(d, mm.MT); skew && n >= 2 {
+			known = append(known, "K9:second-pass")
+		} else {
+			unknown = append(unknown, fmt.Sprintf("media type of manifest %s %q->%q", mm.Name, ca, cb))
+		}
+	}
 	for d, v := range a.Blob {
 		if b.Blob[d] != v {
 			if v && !b.Blob[d] && lostContent[d] {
@@ -822,7 +837,7 @@ func runHistory(r *vh.Run, focus string, i int) {
 	}
 	rng := r.Rand(i)
 	kind := []vh.StoreKind{vh.Mem, vh.Dir, vh.MemDir}[i%3]
-	u := vh.GenUniverse(rng, vh.UOpts{Aliasing: true, Algs: (i/3)%3 == 0, Docker: (i/3)%2 == 1, Tag: fmt.Sprint(i)})
+	u := vh.GenUniverse(rng, vh.UOpts{Aliasing: true, Algs: (i/3)%3 == 0, Docker: (i/3)%2 == 1, BareMT: i%4 == 1, Tag: fmt.Sprint(i)})
 	root := ""
 	if kind != vh.Mem {
 		root = r.TempDir("gc")
@@ -889,7 +904,7 @@ func starvation(r *vh.Run, i int) {
 	}
 	pol := vh.Policy{Untagged: true, Dangling: true, WithSubj: true, EmptyRepo: false, Grace: -1}
 	srv := vh.New(vh.Conf(kind, root, pol))
-	defer srv.Close()
+	defer func() { _ = srv.Close() }()
 	healthy := []string{"h1", "h2", "h3", "n/h4"}
 	garbage := map[string]string{}
 	wit := map[string]any{"trial": i, "store": kind.String()}
@@ -908,19 +923,88 @@ func starvation(r *vh.Run, i int) {
 		b := []byte("x" + rp)
 		vh.Do(srv, vh.Req{Method: "POST", URL: "/v2/" + rp + "/blobs/uploads/?digest=" + vh.DigestOf("sha256", b), Body: b})
 	}
+	damage := "none"
 	if kind == vh.Dir {
 		_ = os.RemoveAll(filepath.Join(root, "removed"))
-		_ = os.WriteFile(filepath.Join(root, "corrupt", "index.json"), []byte("{not json"), 0o644)
+		// one of the ways a repository on disk can be corrupt (hand-edited, half-copied, written by another tool)
+		cdir := filepath.Join(root, "corrupt")
+		hexd := strings.Repeat("ab", 32)
+		entry := func(digest string, ann string) string {
+			return `{"schemaVersion":2,"mediaType":"application/vnd.oci.image.index.v1+json","manifests":[{"mediaType":"application/vnd.oci.image.manifest.v1+json","digest":"` + digest + `","size":2` + ann + `}],"annotations":{"org.olareg.referrer.convert":"true"}}`
+		}
+		xd := vh.DigestOf("sha256", []byte("xcorrupt"))
+		kinds := []string{"index-not-json", "index-truncated", "entry-digest-no-colon", "entry-digest-empty", "entry-digest-unknown-algorithm", "entry-digest-short-hex",
+			"subject-annotation-no-colon", "subject-annotation-empty-hex", "subject-annotation-unknown-algorithm", "entry-blob-missing", "manifest-blob-not-json",
+			"index-is-directory", "blobs-is-file", "layout-missing", "layout-not-json", "index-manifests-null", "index-empty-file"}
+		damage = kinds[(i/2)%len(kinds)]
+		ix := filepath.Join(cdir, "index.json")
+		switch damage {
+		case "index-not-json":
+			_ = os.WriteFile(ix, []byte("{not json"), 0o644)
+		case "index-truncated":
+			_ = os.WriteFile(ix, []byte(entry("sha256:"+hexd, "")[:60]), 0o644)
+		case "entry-digest-no-colon":
+			_ = os.WriteFile(ix, []byte(entry("sha256-"+hexd, "")), 0o644)
+		case "entry-digest-empty":
+			_ = os.WriteFile(ix, []byte(entry("", "")), 0o644)
+		case "entry-digest-unknown-algorithm":
+			_ = os.WriteFile(ix, []byte(entry("md5:"+hexd[:32], "")), 0o644)
+		case "entry-digest-short-hex":
+			_ = os.WriteFile(ix, []byte(entry("sha256:abcd", "")), 0o644)
+		case "subject-annotation-no-colon":
+			_ = os.WriteFile(ix, []byte(entry(xd, `,"annotations":{"org.olareg.referrer.subject":"sha256-`+hexd+`"}`)), 0o644)
+		case "subject-annotation-empty-hex":
+			_ = os.WriteFile(ix, []byte(entry(xd, `,"annotations":{"org.olareg.referrer.subject":"sha256:"}`)), 0o644)
+		case "subject-annotation-unknown-algorithm":
+			_ = os.WriteFile(ix, []byte(entry(xd, `,"annotations":{"org.olareg.referrer.subject":"md5:`+hexd[:32]+`"}`)), 0o644)
+		case "entry-blob-missing":
+			_ = os.WriteFile(ix, []byte(entry("sha256:"+hexd, `,"annotations":{"org.opencontainers.image.ref.name":"gone"}`)), 0o644)
+		case "manifest-blob-not-json":
+			_ = os.WriteFile(ix, []byte(entry(xd, `,"annotations":{"org.opencontainers.image.ref.name":"odd"}`)), 0o644)
+		case "index-is-directory":
+			_ = os.Remove(ix)
+			_ = os.MkdirAll(filepath.Join(ix, "sub"), 0o755)
+		case "blobs-is-file":
+			_ = os.RemoveAll(filepath.Join(cdir, "blobs"))
+			_ = os.WriteFile(filepath.Join(cdir, "blobs"), []byte("x"), 0o644)
+		case "layout-missing":
+			_ = os.Remove(filepath.Join(cdir, "oci-layout"))
+		case "layout-not-json":
+			_ = os.WriteFile(filepath.Join(cdir, "oci-layout"), []byte("]["), 0o644)
+		case "index-manifests-null":
+			_ = os.WriteFile(ix, []byte(`{"schemaVersion":2,"manifests":null}`), 0o644)
+		case "index-empty-file":
+			_ = os.WriteFile(ix, nil, 0o644)
+		}
+		if rng.Intn(2) == 0 {
+			// the store meets the damaged repository for the first time during the pass (reopened store), instead
+			// of re-reading a changed index.json
+			_ = srv.Close()
+			srv = vh.New(vh.Conf(kind, root, pol))
+			wit["reopened_before_pass"] = true
+		}
 	} else if rng.Intn(2) == 0 {
 		return // the memory store has no way to make a repository's collection fail from outside
 	}
+	wit["damage"] = damage
+	r.Distinct("damage_kinds", damage)
 	// the pass is given the tick times as the ticker would: the previous tick just before the repositories were written,
 	// the current one anything from a moment to a long interval later
 	now := time.Now()
 	cur := now.Add([]time.Duration{0, time.Second, 15 * time.Minute, 2 * time.Hour}[rng.Intn(4)])
 	wit["tick_interval"] = cur.Sub(now.Add(-time.Second)).String()
-	err := srv.VerifGCPass(cur, now.Add(-time.Second))
+	var err error
+	panicked := func() (p any) {
+		defer func() { p = recover() }()
+		err = srv.VerifGCPass(cur, now.Add(-time.Second))
+		return nil
+	}()
 	r.Count("starvation_trials", 1)
+	if panicked != nil {
+		wit["panic"] = fmt.Sprint(panicked)
+		r.Violation("pass-panicked:"+damage, fmt.Sprintf("the store-wide pass panicked on a store with a corrupt repository (%s): %v - in the server this ends the collector (and the process)", damage, panicked), wit)
+		return
+	}
 	starved := []string{}
 	for _, rp := range healthy {
 		rs := vh.Do(srv, vh.Req{Method: "HEAD", URL: "/v2/" + rp + "/blobs/" + garbage[rp]})
@@ -930,7 +1014,7 @@ func starvation(r *vh.Run, i int) {
 	}
 	if len(starved) > 0 {
 		wit["pass_error"] = fmt.Sprint(err)
-		r.Violation("pass-starved", fmt.Sprintf("after one store-wide pass the healthy repositories %v still hold their garbage (pass returned: %v)", starved, err), wit)
+		r.Violation("pass-starved", fmt.Sprintf("after one store-wide pass over a store with a corrupt repository (%s) the healthy repositories %v still hold their garbage (pass returned: %v)", damage, starved, err), wit)
 	}
 	_ = digest.Canonical
 }
@@ -944,7 +1028,7 @@ func main() {
 	n := r.N(300, 9000)
 	ns := 0
 	if focus == "C06" {
-		ns = r.N(40, 600)
+		ns = r.N(80, 1200)
 	}
 	if focus == "C10" {
 		n = r.N(200, 6000)
